@@ -1181,6 +1181,7 @@ struct Once {
     rounds: Option<usize>,
     initially_divergent: bool,
     final_states_equal: bool,
+    one_exchange_checked: bool,
     causes: Vec<(String, String)>,
 }
 
@@ -1237,10 +1238,22 @@ fn run_once(cfg: &SyncCfg, ha: &[WOp], hb: &[WOp], limit: usize) -> Result<Once,
     }
     let max_rounds = union.len() + 1;
     let mut rounds: Option<usize> = if initially_divergent { None } else { Some(0) };
+    // state of both sides after exactly one exchange
+    let mut after_one: Option<(BTreeMap<String, String>, BTreeMap<String, String>, bool)> = None;
+    // the limit does not truncate iff each side has at most `limit` keys in the divergent buckets
+    let in_div = |m: &BTreeMap<String, ReplicatedValue>| m.keys().filter(|k| divergent0.contains(&bucket_of(k, cfg.depth))).count();
+    let not_truncating = limit >= in_div(&prior_a).max(in_div(&prior_b));
     if initially_divergent {
         for r in 1..=max_rounds {
             sim.run_anti_entropy_sync(0, 1);
             let (da, db) = (sim.nodes[0].generate_digest(), sim.nodes[1].generate_digest());
+            if r == 1 {
+                after_one = Some((
+                    canon_state(&sim.nodes[0].replica_state.replicated_keys),
+                    canon_state(&sim.nodes[1].replica_state.replicated_keys),
+                    !da.differs_from(&db) && da.divergent_buckets(&db).is_empty(),
+                ));
+            }
             if !da.differs_from(&db) && da.divergent_buckets(&db).is_empty() {
                 rounds = Some(r);
                 break;
@@ -1289,6 +1302,33 @@ fn run_once(cfg: &SyncCfg, ha: &[WOp], hb: &[WOp], limit: usize) -> Result<Once,
         }
         e
     };
+    // ONE exchange suffices when the per-round limit does not truncate: every key of an initially
+    // divergent bucket holds the merge on both sides and the digests agree
+    if let (true, Some((a1, b1, agree1))) = (not_truncating, &after_one) {
+        let one_txt = format!("after exactly one run_anti_entropy_sync: node0 = {} node1 = {} digests agree: {}", show_state(a1), show_state(b1), agree1);
+        let mut unmerged = false;
+        for k in &union {
+            if !divergent0.contains(&bucket_of(k, cfg.depth)) {
+                continue;
+            }
+            let e = expected(k);
+            for (side, st) in [("node0", a1), ("node1", b1)] {
+                if !st.get(k).map(|v| e.contains(v)).unwrap_or(false) && !unmerged {
+                    unmerged = true;
+                    causes.push((
+                        "sync one exchange (limit not truncating) leaves a divergent-bucket key unmerged".into(),
+                        format!("{scenario}; key {k} on {side} holds {:?}, expected {:?}; {one_txt}", st.get(k), e),
+                    ));
+                }
+            }
+        }
+        if !unmerged && !agree1 {
+            causes.push((
+                "sync one exchange (limit not truncating) merges every divergent-bucket key yet the digests still differ".into(),
+                format!("{scenario}; {one_txt}"),
+            ));
+        }
+    }
     let fin_txt = format!("after {} round(s): node0 = {} (iterates {}) node1 = {} (iterates {})", rounds.map(|r| r.to_string()).unwrap_or(format!("{max_rounds}")), show_state(&sa), show_order(&fin.0), show_state(&sb), show_order(&fin.1));
     if initially_divergent {
         match rounds {
@@ -1371,7 +1411,8 @@ fn run_once(cfg: &SyncCfg, ha: &[WOp], hb: &[WOp], limit: usize) -> Result<Once,
         }
     }
     let final_states_equal = sa == sb;
-    Ok(Once { init, fin, rounds, initially_divergent, final_states_equal, causes })
+    let one_exchange_checked = not_truncating && after_one.is_some();
+    Ok(Once { init, fin, rounds, initially_divergent, final_states_equal, one_exchange_checked, causes })
 }
 
 const SYNC_MAX_ATTEMPTS: usize = 3000;
@@ -1381,6 +1422,7 @@ const SAT_MIN: usize = 48;
 const SAT_QUIET: usize = 24;
 
 struct ScenResult {
+    one_exchange: bool,
     by_saturation: bool,
     debug: String,
     attempts: usize,
@@ -1405,6 +1447,7 @@ fn run_scenario(cfg: &SyncCfg, ha: &[WOp], hb: &[WOp], limit: usize) -> ScenResu
     let mut outcomes: BTreeSet<(Option<usize>, Vec<String>)> = BTreeSet::new();
     let mut attempts = 0usize;
     let mut nontrivial = false;
+    let mut one_exchange = false;
     let mut want_init = 1usize;
     let mut covered = false;
     let (mut equal_runs, mut last_new_combo_at, mut any_truncating, mut by_saturation) = (0usize, 0usize, false, false);
@@ -1429,6 +1472,7 @@ fn run_scenario(cfg: &SyncCfg, ha: &[WOp], hb: &[WOp], limit: usize) -> ScenResu
             }
         };
         nontrivial |= once.initially_divergent;
+        one_exchange |= once.one_exchange_checked;
         let (na, nb) = (once.init.2.len(), once.init.3.len());
         // the full iteration order decides which keys `take(limit)` selects; if the limit cannot
         // truncate only the per-bucket order matters
@@ -1493,6 +1537,7 @@ fn run_scenario(cfg: &SyncCfg, ha: &[WOp], hb: &[WOp], limit: usize) -> ScenResu
         )
     };
     ScenResult {
+        one_exchange,
         by_saturation,
         debug,
         attempts,
@@ -1880,6 +1925,7 @@ fn main() {
     let mut uncovered = 0u64;
     let mut order_dependent = 0u64;
     let mut saturated = 0u64;
+    let mut one_exchange_scen = 0u64;
     let mut max_attempts = 0usize;
     let mut rounds_hist: BTreeMap<String, u64> = BTreeMap::new();
     let mut per_cfg: BTreeMap<String, BTreeMap<String, u64>> = BTreeMap::new();
@@ -1902,6 +1948,9 @@ fn main() {
         }
         if r.by_saturation {
             saturated += 1;
+        }
+        if r.one_exchange {
+            one_exchange_scen += 1;
         }
         max_attempts = max_attempts.max(r.attempts);
         for (k, v) in &r.rounds_hist {
@@ -1949,7 +1998,7 @@ fn main() {
     let coverage = json!({
         "evaluations": evaluations,
         "distinct_nontrivial": nontrivial_a + sync_nontrivial,
-        "rule": "values: for every pair of write histories (<= hist_len ops on the key: SET a/b, SET EX, DEL, HSET f/g, HDEL) of replicas 1 and 2, the real merge of every ordered sequence of distinct prefix deltas; two values are jointly reachable iff one such universe yields both. digest part: (i) every content core^n (n<=4 keys) on each key set (merkle depth 0/1/8, keys chosen so that up to 4 share a bucket), built by 8 construction kinds x every insertion order, repeated on fresh HashMaps until every per-bucket iteration order was observed, each instance compared with the first (non-trivial: >=2 keys share a bucket, i.e. more than one iteration order exists); (ii) for each key set and position, all jointly reachable pairs of distinct values (and key absent) at that position, every pair of observed iteration orders (non-trivial: the two states differ in an observable component); (iii) merge(A,B) vs merge(B,A) through apply_remote_delta for all jointly reachable value pairs, judged equal/unequal by canonical content (each pair non-trivial). sync part: every pair of write histories (deduplicated by resulting state) x max_keys_per_sync {1,2,1000} x merkle config, repeated on fresh nodes until every combination of initial iteration orders (and of final orders of equal states) was seen, run_anti_entropy_sync repeated #keys+1 times (non-trivial: the initial digests differ so that a sync is attempted)",
+        "rule": "values: for every pair of write histories (<= hist_len ops on the key: SET a/b, SET EX, DEL, HSET f/g, HDEL) of replicas 1 and 2, the real merge of every ordered sequence of distinct prefix deltas; two values are jointly reachable iff one such universe yields both. digest part: (i) every content core^n (n<=4 keys) on each key set (merkle depth 0/1/8, keys chosen so that up to 4 share a bucket), built by 8 construction kinds x every insertion order, repeated on fresh HashMaps until every per-bucket iteration order was observed, each instance compared with the first (non-trivial: >=2 keys share a bucket, i.e. more than one iteration order exists); (ii) for each key set and position, all jointly reachable pairs of distinct values (and key absent) at that position, every pair of observed iteration orders (non-trivial: the two states differ in an observable component); (iii) merge(A,B) vs merge(B,A) through apply_remote_delta for all jointly reachable value pairs, judged equal/unequal by canonical content (each pair non-trivial). sync part: every pair of write histories (deduplicated by resulting state) x max_keys_per_sync {1,2,1000} x merkle config, repeated on fresh nodes until every combination of initial iteration orders (and of final orders of equal states) was seen, after exactly ONE run_anti_entropy_sync, when the limit does not truncate (each side has <= limit keys in the divergent buckets), every divergent-bucket key must hold the merge on both sides and the digests must agree; otherwise run_anti_entropy_sync repeated #keys+1 times (non-trivial: the initial digests differ so that a sync is attempted)",
         "exhaustive": exhaustive,
         "samples": samples,
         "values": {"write_history_length_per_replica": hist_len, "universes": space.universes, "merge_sequences_evaluated": space.merges, "distinct_values": vals.len(),
@@ -1969,6 +2018,7 @@ fn main() {
         "sync": {
             "histories": hist_notes, "scenarios": scens.len(), "scenarios_with_divergent_initial_digests": sync_nontrivial,
             "runs_on_fresh_nodes": sync_runs, "max_repetitions_of_one_scenario": max_attempts, "repetition_bound": SYNC_MAX_ATTEMPTS,
+            "scenarios_with_one_exchange_oracle_limit_not_truncating": one_exchange_scen,
             "scenarios_not_covering_all_order_combinations": uncovered,
             "scenarios_whose_final_order_combinations_were_closed_by_saturation": saturated, "scenarios_whose_outcome_depends_on_iteration_order": order_dependent,
             "rounds_until_digests_agree_histogram": rounds_hist, "outcomes_per_config": per_cfg, "wall_s": t_sync,
